@@ -25,6 +25,7 @@ Inductive tnode :=
 | TStr
 | TIfNest (body : list tnode)
 | TRec
+| TBlock                        (* in the Less body: {{template "<block>" <sorter>.PriorityTree}} *)
 | TUnknown (src : string).
 
 (* one node, the dot being line `c` of a chain whose remainder is `rest` *)
@@ -41,6 +42,7 @@ Fixpoint exec_node (self : list cmpline -> string) (c : cmpline) (rest : list cm
                 match l with [] => "" | x :: r => exec_node self c rest x ++ go r end) body
       end
   | TRec => self rest
+  | TBlock => "<block?>"        (* not part of the recursive block itself *)
   | TUnknown _ => "<?>"
   end.
 (* one invocation of the template on the chain `cs` (dot = head of cs) *)
@@ -98,6 +100,18 @@ Fixpoint chains (n k : nat) : list (list cmpline) :=
   end.
 Definition test_chains : list (list cmpline) :=
   chains 1 0 ++ chains 2 0 ++ chains 3 0 ++ chains 4 0.
+
+(* the whole Less body: literal text, and the block run on the sorter's chain *)
+Definition exec_less (body block : list tnode) (cs : list cmpline) : string :=
+  String.concat "" (map (fun n => match n with
+                                  | TText s => s
+                                  | TBlock => exec_block block cs
+                                  | _ => "<?>"
+                                  end) body).
+Definition less_agrees_on (body block : list tnode) (cs : list cmpline) : bool :=
+  strs_eq (tokens (exec_less body block cs)) (flat_map tokens (render_block cl_string cs)).
+Definition less_agrees (body block : list tnode) : bool :=
+  forallb (less_agrees_on body block) test_chains.
 
 Definition agrees_on (block : list tnode) (cs : list cmpline) : bool :=
   strs_eq (tokens (exec_block block cs)) (flat_map tokens (render_block cl_string cs)).
